@@ -14,7 +14,8 @@ At(p, lo, v) == [k |-> "attr", p |-> p, sp |-> <<>>, lo |-> lo, v |-> v]
 \* <r id="7"><a>1</a><a>2</a><b x="t">hello</b><c><d>3</d><d>4</d></c><e/></r>
 UDoc == << [k |-> "root", p |-> 0, sp |-> <<>>, lo |-> <<>>, v |-> <<>>], El(1, <<"r">>), At(2, <<"i","d">>, <<"7">>),
            El(2, <<"a">>), Tx(4, <<"1">>), El(2, <<"a">>), Tx(6, <<"2">>), El(2, <<"b">>), At(8, <<"x">>, <<"t">>), Tx(8, <<"h","e","l","l","o">>),
-           El(2, <<"c">>), El(11, <<"d">>), Tx(12, <<"3">>), El(11, <<"d">>), Tx(14, <<"4">>), El(2, <<"e">>) >>
+           El(2, <<"c">>), El(11, <<"d">>), Tx(12, <<"3">>), El(11, <<"d">>), Tx(14, <<"4">>), El(2, <<"e">>),
+           [k |-> "elem", p |-> 11, sp |-> U1, lo |-> <<"n">>, v |-> <<>>], Tx(17, <<"9">>) >>      \* <p:n xmlns:p="u1">9</p:n> inside c
 ASSUME WellFormed(UDoc)
 C(nm) == Rel(<<Step("child", T_name("", nm))>>)
 A_ == C(<<"a">>)
@@ -29,6 +30,11 @@ CountA == Call(<<"c","o","u","n","t">>, <<A_>>)
 AEq1 == Bin("eq", A_, IntE(1))
 Up == Rel(<<Step("parent", T_node), Step("child", T_any)>>)      \* a sub-query that leaves the subtree
 
+\* tags that need the call's bindings (prefix p, variable $v) - also inside nested and pointer-held structs
+PN == Rel(<<Step("child", T_name("p", <<"n">>))>>)
+VarV == Var("", <<"v">>)
+Bound1 == Struct(<<Field(PN, Prim("int")), Field(VarV, Prim("string"))>>)
+UEnv == [ns |-> [p |-> U1], vars |-> <<[sp |-> <<>>, lo |-> <<"v">>, val |-> StrV(<<"w">>)]>>, funcs |-> <<>>]
 Inner == Struct(<<Field(D_, Slice(Prim("int"))), Field(Up, Slice(Prim("string"))), Untagged(Prim("string"))>>)
 Types == << Struct(<<Field(A_, Prim("string")), Field(Id, Prim("int")), Field(AEq1, Prim("bool")), Untagged(Prim("int"))>>),
             Struct(<<Field(A_, Slice(Prim("string"))), Field(A_, Slice(Ptr(Prim("int8")))), Field(CountA, Prim("float64")), Field(None, Prim("string"))>>),
@@ -46,6 +52,8 @@ Types == << Struct(<<Field(A_, Prim("string")), Field(Id, Prim("int")), Field(AE
             Struct(<<Field(A_, Slice(Slice(Prim("int"))))>>), Struct(<<Field(None, Slice(Slice(Prim("int"))))>>),
             Struct(<<Field(Var("", <<"u","n","b">>), Prim("string"))>>),  \* the tag query fails (unbound variable)
             Struct(<<Untagged(Prim("string")), Untagged(Prim("int"))>>),
+            Struct(<<Field(Cc, Bound1), Field(VarV, Prim("string"))>>), Struct(<<Field(Cc, Ptr(Bound1))>>), Struct(<<Field(Cc, Ptr(Ptr(Bound1)))>>),
+            Struct(<<Field(Cc, Slice(Bound1))>>), Struct(<<Field(Cc, Slice(Ptr(Bound1)))>>), Slice(Struct(<<Field(Cc, Ptr(Bound1))>>)),
             Ptr(Struct(<<Field(A_, Prim("string"))>>)), Ptr(Ptr(Struct(<<Field(Id, Prim("int32"))>>))),
             Slice(Prim("string")), Slice(Prim("int")), Slice(Prim("float32")), Slice(Prim("bool")), Slice(Ptr(Prim("string"))),
             Slice(Struct(<<Field(Rel(<<Self>>), Prim("string")), Field(Rel(<<Step("following-sibling", T_any)>>), Slice(Prim("string")))>>)),
@@ -60,8 +68,8 @@ Results == << Abs(<<Step("child", T_name("", <<"r">>))>>), Abs(<<Step("child", T
 Init == ti \in 1..Len(Types) /\ fi = 0 /\ ri = 0
 Next == fi = 0 /\ fi' \in 1..Len(Forms) /\ ri' \in 1..Len(Results) /\ ti' = ti
 Ready == fi # 0
-Res == Eval(UDoc, EmptyEnv, Results[ri], Ctx(1))
-Out == UnmarshalCall(UDoc, EmptyEnv, Forms[fi], Types[ti], Res)
+Res == Eval(UDoc, UEnv, Results[ri], Ctx(1))
+Out == UnmarshalCall(UDoc, UEnv, Forms[fi], Types[ti], Res)
 
 \* laws: only a non-nil pointer to a struct or slice can succeed; a struct needs exactly one node
 Laws == Ready =>
@@ -69,5 +77,5 @@ Laws == Ready =>
   /\ (StripPtr(Types[ti]).k \notin {"struct", "slice"} => IsUErr(Out))
   /\ (StripPtr(Types[ti]).k = "struct" /\ (Res.t # "ns" \/ Cardinality(Res.v) # 1) => IsUErr(Out))
   /\ (~IsUErr(Out) /\ StripPtr(Types[ti]).k = "slice" => Len(Out.v) = Cardinality(Res.v))
-Emit == (EmitOn /\ Ready) => PrintT(ToJson([fam |-> "C19.unmarshal", doc |-> UDoc, type |-> Types[ti], form |-> Forms[fi], result |-> Results[ri], out |-> Out]))
+Emit == (EmitOn /\ Ready) => PrintT(ToJson([fam |-> "C19.unmarshal", doc |-> UDoc, env |-> UEnv, type |-> Types[ti], form |-> Forms[fi], result |-> Results[ri], out |-> Out]))
 =============================================================================
